@@ -134,6 +134,24 @@ def dep_closure(roots):
     return seen
 
 
+def strip_coq_comments(src):
+    out, depth, i = [], 0, 0
+    while i < len(src):
+        if src.startswith("(*", i):
+            depth += 1
+            i += 2
+        elif src.startswith("*)", i) and depth > 0:
+            depth -= 1
+            i += 2
+        else:
+            if depth == 0:
+                out.append(src[i])
+            elif src[i] == "\n":
+                out.append("\n")
+            i += 1
+    return "".join(out)
+
+
 def scan_forbidden(only=None):
     """Return list of (file, line, text) of forbidden tokens in the Coq development
     (restricted to the files in `only`, relative to coq/, when given)."""
@@ -222,7 +240,7 @@ class Ctx:
                 ensure_coq_makefile()
                 rc, out = sh(["make", "-j%d" % njobs()] + targets, cwd=COQ, timeout=timeout)
         res["log"] = out[-6000:]
-        src = open(os.path.join(COQ, props_file)).read()
+        src = strip_coq_comments(open(os.path.join(COQ, props_file)).read())
         thms = re.findall(r"^\s*(?:Theorem|Lemma|Corollary)\s+([A-Za-z0-9_']+)", src, re.M)
         res["theorems"] = thms
         res["obligations"] = len(thms)
@@ -357,14 +375,17 @@ class Ctx:
         matched against known_findings.json; replay: JSON-able object written to the replay file."""
         self.failures.append({"key": key, "what": what, "replay": replay, "no_input": no_input})
 
-    def finish(self, level=None):
-        level = level or self.level
+    def known_keys(self):
         kf_path = os.path.join(VERIF, "known_findings", self.pid + ".json")
         known = []
         if os.path.exists(kf_path):
             known = [k for k in json.load(open(kf_path)).get("findings", [])
                      if k.get("status") == "known"]
-        known_keys = {k["key"]: k for k in known}
+        return {k["key"]: k for k in known}
+
+    def finish(self, level=None):
+        level = level or self.level
+        known_keys = self.known_keys()
         viol = 0
         printed = set()
         rdir = self.replay_dir
@@ -437,7 +458,9 @@ class Ctx:
         failure has been recorded, record a no-failing-input-found failure."""
         r = self.l1
         if r is not None and not r["ok"]:
-            if not any(not f["no_input"] for f in self.failures):
+            known = self.known_keys()
+            # a failure excused as a known finding is not a failing input for the broken proof leg
+            if not any((not f["no_input"]) and f["key"] not in known for f in self.failures):
                 self.failure("proof-leg", "Coq proof leg no longer checks: %s\n%s" % (
                     r.get("broken_at", ""), r["log"][-1200:]),
                     {"broken": r.get("broken_at", "theories/Properties/%s.v" % self.pid),
